@@ -259,6 +259,18 @@ def run(ctx):
         r2 = os.path.join(d, "cli")
         os.makedirs(r2)
         rt.mk(r2, mtree)
+        # sparse files (holes before, between and after the written extents, and nothing but a hole): the content of a
+        # file is its `size` bytes as read() returns them, zeros of the holes included
+        blk = bytes(range(256)) * 64
+        for nm, layout, size in (("sparse_tail.bin", [(0, blk)], 300000), ("sparse_lead.bin", [(200000, blk)], 200000 + len(blk)),
+                                 ("sparse_mid.bin", [(0, blk), (262144, blk)], 262144 + len(blk) + 70000), ("sparse_all.bin", [], 150000)):
+            with open(os.path.join(r2, nm), "wb") as fh:
+                for off, b_ in layout:
+                    fh.seek(off)
+                    fh.write(b_)
+                fh.truncate(size)
+            mtree[nm] = open(os.path.join(r2, nm), "rb").read()
+            assert len(mtree[nm]) == size
         for fmts in ([["md5", "c4"], ["xxh64"], CLI_FORMATS] if not ctx.thorough else [[f] for f in CLI_FORMATS] + [CLI_FORMATS, ["c4", "xxh128", "sha1"]]):
             for p in glob.glob(os.path.join(r2, "**", "ascmhl"), recursive=True):
                 import shutil
@@ -288,11 +300,12 @@ def run(ctx):
             if x.exit != 0:
                 fails.append({"what": f"verify on the untouched tree (one file of {len(mtree['big.bin'])} bytes) sealed with {fmts}: exit {x.exit}", "replay": {"entry": "verify", "fmts": fmts, "size": len(mtree["big.bin"]), "seed": ctx.seed}})
         for f in CLI_FORMATS:
-            x = rt.run("hash", [os.path.join(r2, "big.bin"), "-h", f])
-            evals += 1
-            exp = f"{f} ({os.path.join(r2, 'big.bin')}) = {rt.digest(f, mtree['big.bin'])}"
-            if exp not in x.out:
-                fails.append({"what": f"`hash -h {f}` prints {x.out.strip()[-120:]!r}, expected {exp[-120:]!r}", "replay": {"entry": "hash", "fmt": f, "size": len(mtree["big.bin"]), "seed": ctx.seed}})
+            for nm in ("big.bin", "sparse_tail.bin", "sparse_all.bin"):
+                x = rt.run("hash", [os.path.join(r2, nm), "-h", f])
+                evals += 1
+                exp = f"{f} ({os.path.join(r2, nm)}) = {rt.digest(f, mtree[nm])}"
+                if exp not in x.out:
+                    fails.append({"what": f"`hash -h {f}` prints {x.out.strip()[-120:]!r}, expected {exp[-120:]!r}", "replay": {"entry": "hash", "fmt": f, "file": nm, "size": len(mtree[nm]), "seed": ctx.seed}})
     # ---- (c)/(d) codecs: implementation vs model vs independent reference
     n_c4 = ctx.scale(2000, 200000)
     vals = boundary_values() + [rnd.getrandbits(512) for _ in range(n_c4 // 2)] + [rnd.getrandbits(rnd.randint(1, 511)) for _ in range(n_c4 // 2)]
